@@ -13,6 +13,7 @@ PLAN.json (all optional):
   break_mutator: {cls, method, mod, salt}  make a mutator raise on some nodes
   break_apply  : {mod, salt}  make apply_simp raise for some candidates (inside the workers)
   observe_file : true  during every write of the output file, read the file at every traced line; contents other than the previous and the new one are listed in after.json 'torn'
+  keep_texts   : true  after.json gets 'writes_text', the rendering of every accepted input
   parse_only   : true  stop when the input has been read; after.json gets 'parsed' (nested lists)
   fixpoint     : {spec, opts}  after main(): enumerate every proposal on the
                         result of strategy_hierarchical.reduce and evaluate it
@@ -134,7 +135,7 @@ def main():
             state['writes'] += 1
             dg = digest(exprs)
             state['writes_by'].append(state.get('current_mutator'))
-            if plan.get('stop_on_repeat'):
+            if plan.get('stop_on_repeat') or plan.get('keep_texts'):
                 try:
                     state['writes_text'].append(nodeio.write_smtlib_to_str(exprs))
                 except Exception:  # noqa
@@ -365,6 +366,8 @@ def main():
                  stopped=state.get('stopped', False), repeat=state.get('repeat'),
                  too_many_accepts=state.get('too_many_accepts', False))
 
+    if plan.get('keep_texts'):
+        after['writes_text'] = state['writes_text']
     if 'torn' in state:
         after['torn'] = state['torn'][:20]
     if 'parsed' in state:
